@@ -151,6 +151,20 @@ class Recorder:
             else:
                 self.issue(proto, n, spec)
 
+    def external(self, proto, n, reqs):
+        """requests issued through the provider from outside any callback (an external controller between
+        two steps); relative timers are resolved against the clock the provider reports now.
+        Returns the resolved requests."""
+        now = to_ticks(proto.provider.current_time(), self.tick)
+        self.trace.append(["ext", n, now])
+        out = []
+        for req in reqs:
+            if req[0] == "setTimerRel":
+                req = ["setTimer", req[1], now + req[2]]
+            out.append(req)
+            self.issue(proto, n, req)
+        return out
+
     def issue(self, proto, n, req):
         ok = True
         try:
@@ -422,6 +436,7 @@ def run_impl(scn, behaviour=None, sim_options=None, draw_seed=0, keep_logging=Fa
     prescribed = [bitsf(b) for b in scn["cfg"].get("draws", [])] if scn.get("prescribedDraws") else None
     source = GlobalDrawSource(draw_seed) if global_random else DrawSource(draw_seed, prescribed)
     rets = []
+    resolved = []
     crash = None
     with patched_random(source):
         try:
@@ -443,10 +458,23 @@ def run_impl(scn, behaviour=None, sim_options=None, draw_seed=0, keep_logging=Fa
                 proto = sim.get_node(row["n"]).protocol_encapsulator.protocol
                 for req in row["reqs"]:
                     rec.issue(proto, row["n"], req)
+            between = sorted(scn.get("between", []), key=lambda row: row["at"])
+
+            def controller(i):
+                # the external controller acts before the i-th step_simulation call - as long as the
+                # simulation has not reported its end
+                if rets and not rets[-1]:
+                    return
+                for row in between:
+                    if row["at"] == i:
+                        proto = sim.get_node(row["n"]).protocol_encapsulator.protocol
+                        resolved.append({"at": i, "n": row["n"], "reqs": rec.external(proto, row["n"], row["reqs"])})
+
             if drive["mode"] == "start":
-                for _ in range(drive.get("pre", 0)):      # mixed driving: manual steps, then blocking
+                for i in range(drive.get("pre", 0)):      # mixed driving: manual steps, then blocking
                     if shadow is not None:
                         shadow.step()
+                    controller(i)
                     rets.append(bool(sim.step_simulation()))
                 sim.start_simulation()
             else:
@@ -461,9 +489,10 @@ def run_impl(scn, behaviour=None, sim_options=None, draw_seed=0, keep_logging=Fa
                     for _ in range(extra_steps):
                         rets.append(bool(sim.step_simulation()))
                 else:
-                    for _ in range(drive["n"]):
+                    for i in range(drive["n"]):
                         if shadow is not None:
                             shadow.step()
+                        controller(i)
                         rets.append(bool(sim.step_simulation()))
         except Exception as e:  # an exception escaping the simulator aborts the run
             crash = f"{type(e).__name__}: {e}"
@@ -484,6 +513,7 @@ def run_impl(scn, behaviour=None, sim_options=None, draw_seed=0, keep_logging=Fa
         "drawsUsed": used, "draws": [fbits(v) for v in source.values + extra],
         "table": list(rec.table.values()), "crash": crash, "excTypes": rec.exc_types,
         "identities": rec.identities, "ownPos": rec.own_pos, "addedIds": getattr(rec, "added_ids", None),
+        "between": resolved,
     }
 
 
@@ -498,4 +528,6 @@ def to_driver(scn, impl_result):
         d["wantPos"] = True
     if scn.get("prestart"):
         d["prestart"] = scn["prestart"]
+    if impl_result.get("between"):
+        d["between"] = impl_result["between"]     # with relative timers resolved as the implementation resolved them
     return d
